@@ -132,6 +132,7 @@ static char wrq[MAXQ * 16]; static size_t wr_head, wr_tail;
 static long lock_n, unlock_n;
 static struct { long k; int ret; } lock_s[256], unlock_s[256]; static int nlock_s, nunlock_s;
 static long total_calls;
+static uint8_t outcap[1 << 16]; static size_t outcap_len;
 static int delivered_in_call;
 
 /* snapshots for C16 */
@@ -271,6 +272,7 @@ static int cb_write(char ch)
         }
         ev_begin();
         ev_printf("{\"k\":\"wr\",\"b\":%u,\"ok\":%s,\"r\":%d}", (uint8_t)ch, r == 1 ? "true" : "false", r);
+        if (r == 1 && outcap_len < sizeof outcap) outcap[outcap_len++] = (uint8_t)ch;
         return r;
 }
 
@@ -708,7 +710,7 @@ static void teardown(void)
         free(half_copy); half_copy = NULL;
         memset(cmds, 0, sizeof cmds);
         ngroups = ncmds = 0;
-        in_head = in_tail = rd_head = rd_tail = wr_head = wr_tail = 0;
+        in_head = in_tail = rd_head = rd_tail = wr_head = wr_tail = 0; outcap_len = 0;
         lock_n = unlock_n = 0; nlock_s = nunlock_s = 0;
         use_mutex = 0; fill_byte = 0; grain_step = 1; compact = 0; autoq[0] = 0;
         hdef[0] = 3; hdef[1] = 0; hdef[2] = 3; hdef[3] = 0;
@@ -717,9 +719,9 @@ static void teardown(void)
 
 static void emit_cfg(void)
 {
-        fprintf(out, "{\"e\":\"cfg\",\"sid\":%ld,\"qcap\":%d,\"acap\":%zu,\"ucap\":%zu,\"shared\":%s,\"mutex\":%s,\"step\":%s,\"groups\":[",
+        fprintf(out, "{\"e\":\"cfg\",\"sid\":%ld,\"qcap\":%d,\"acap\":%zu,\"ucap\":%zu,\"shared\":%s,\"mutex\":%s,\"step\":%s,\"fill\":%d,\"groups\":[",
                 sid, (int)CAT_UNSOLICITED_CMD_BUFFER_SIZE, acap, ucap, usize < 0 ? "true" : "false", use_mutex ? "true" : "false",
-                grain_step ? "true" : "false");
+                grain_step ? "true" : "false", fill_byte);
         for (int g = 0; g < ngroups; g++) fprintf(out, "%s{\"disable\":%s}", g ? "," : "", group_disable[g] ? "true" : "false");
         fprintf(out, "],\"cmds\":[");
         for (int i = 0; i < ncmds; i++) {
@@ -790,6 +792,7 @@ static void finish_cfg(void)
         snap_size = snap_total();
         snap_entry = malloc(snap_size + 1); snap_unlock = malloc(snap_size + 1);
         half_copy = malloc(bufsize + (usize >= 0 ? (size_t)usize : 0) + 1);
+        if (fill_byte) grain_step = 0;   /* stale pointers in the object must not be dereferenced by the projection */
         cat_init(at, &desc, &io_if, use_mutex ? &mtx_if : NULL);
         emit_cfg();
 }
@@ -912,6 +915,34 @@ static void process_line(char *line)
                 if (compact) auto_queries();
                 fprintf(out, "{\"e\":\"env\",\"f\":\"settled\",\"ok\":%s,\"calls\":%ld}\n", r == 0 ? "true" : "false", i);
                 if (r == 0) { int sc = compact; compact = 0; int sg = grain_step; call_service(); grain_step = sg; compact = sc; auto_queries(); }
+        } else if (!strcmp(op, "roundtrip")) {
+                /* roundtrip <cmd> [max]: AT<name>? ; take the payload after '=' ; AT<name>=<payload> (C07) */
+                int c = atoi(tok[1]); long max = n > 2 ? atol(tok[2]) : 20000; long i = 0, r = 1;
+                if (c < 0 || c >= ncmds) die("roundtrip: bad cmd");
+                const char *nm = cmds[c].name; size_t nl = strlen(nm);
+                size_t start = outcap_len;
+                if (in_tail + nl + 4 > sizeof inq) die("input too long");
+                memcpy(inq + in_tail, "AT", 2); memcpy(inq + in_tail + 2, nm, nl); memcpy(inq + in_tail + 2 + nl, "?\n", 2); in_tail += nl + 4;
+                while (i < max) { r = call_service(); i++; if (r == 0 && in_head == in_tail) break; }
+                flush_merged(last_svc_ret);
+                /* first unit: skip leading CR/LF, take up to the next LF */
+                size_t p = start; while (p < outcap_len && (outcap[p] == '\n' || outcap[p] == '\r')) p++;
+                size_t e = p; while (e < outcap_len && outcap[e] != '\n') e++;
+                if (e > p && outcap[e - 1] == '\r') e--;
+                size_t eq = p; while (eq < e && outcap[eq] != '=') eq++;
+                if (eq < e && e < outcap_len && (e - p) > nl && memcmp(outcap + p, nm, nl) == 0 && eq == p + nl) {
+                        fprintf(out, "{\"e\":\"env\",\"f\":\"note\",\"t\":\"rt_begin\"}\n");
+                        size_t al = e - eq - 1;
+                        if (in_tail + nl + al + 4 > sizeof inq) die("input too long");
+                        memcpy(inq + in_tail, "AT", 2); memcpy(inq + in_tail + 2, nm, nl); inq[in_tail + 2 + nl] = '=';
+                        memcpy(inq + in_tail + 3 + nl, outcap + eq + 1, al); inq[in_tail + 3 + nl + al] = '\n'; in_tail += nl + al + 4;
+                        i = 0;
+                        while (i < max) { r = call_service(); i++; if (r == 0 && in_head == in_tail) break; }
+                        flush_merged(last_svc_ret);
+                        fprintf(out, "{\"e\":\"env\",\"f\":\"note\",\"t\":\"rt_end\"}\n");
+                } else {
+                        fprintf(out, "{\"e\":\"env\",\"f\":\"note\",\"t\":\"rt_skipped\"}\n");
+                }
         } else if (!strcmp(op, "note")) {
                 flush_merged(last_svc_ret);
                 fprintf(out, "{\"e\":\"env\",\"f\":\"note\",\"t\":\"%s\"}\n", n > 1 ? tok[1] : "");
